@@ -11,6 +11,10 @@ CHECKS = {
    technique="stateless deviation-bounded exploration of read schedules (all chunkings for short inputs) over bounded-exhaustive inputs, on the real library; slice run as reference",
    text="For every enumerated input (all token sequences up to k per format, seed corpus and its single-edit neighbourhood, all byte strings <= 2) and every read schedule within the deviation bound (every chunking for short inputs), translate_reader gives the verdict and bytes of translate_slice. Exhaustive within the stated bounds; coverage counts are in the evidence.",
    note="Trusted: the harness's SchedReader (never returns Interrupted / premature EOF), catch_unwind isolation, the explanation tests of the four known-finding classes in KNOWN_FINDINGS.txt (each recomputed per case). Inputs beyond the alphabets/bounds are not covered."),
+ "C03": dict(cat="model_checking", design="4.3",
+   technique="exhaustive enumeration of call histories on one real Translator over an input alphabet (depth-bounded), plus N-document streams and document boundaries at every offset around buffer sizes under deviation-bounded read schedules; sequential-composition reference + independent framing readers",
+   text="Every history of translate calls (mixed formats, slice/reader, named/detected, including failing inputs) up to the depth bound on one Translator, for each streaming target, outputs exactly the concatenation of each document's stand-alone translation, and the target's independent reader recovers exactly N documents; the same for N-document streams (N to 1000) and for streams whose document boundary sits at every offset around 8 KiB multiples, from slice and from readers within the schedule bound; the CLI part runs mixed-format file lists through the real binary.",
+   note="Reference = xt's own single-document translation (sequential composition), so absolute value fidelity is left to C01. Trusted: harness readers for framing."),
  "C06": dict(cat="exploration", design="4.6",
    technique="bounded-exhaustive enumeration of documents x ordered format pairs, metamorphic two-hop oracle on the real library (idempotence and round trip), both supply modes at each hop",
    text="For every enumerated document (C01 corpus, boundary-sized collections, buffer-straddling strings, extensions) and every ordered pair (A,B): whenever xt(A->B)(x) succeeds, xt(B->B) reproduces it byte for byte from slice and reader, and for common-model documents xt(B->A) of it equals xt(A->A)(x) (TOML: of the reordered value).",
